@@ -13,7 +13,8 @@ import (
 // and answers tikverr.ErrNotExist when absent; Commit fails with a write-conflict error when a
 // written key was committed by another transaction after the start ts, else applies the buffer.
 // KVSnapshot.Iter(k, upper) = ascending over [k, upper); IterReverse(k) = descending from the
-// greatest key < k, unbounded below. ScanRegions answers one region covering everything.
+// greatest key < k, unbounded below. ScanRegions answers the regions given by zzverif.SetTiKVRegions
+// (default: one region covering everything).
 
 const (
 	tikvPkg  = "github.com/tikv/client-go/v2/tikv"
@@ -85,8 +86,42 @@ type tkPD struct{ in *interp }
 func (p *tkPD) callMethod(in *interp, fr *frame, name string, args []value) value {
 	switch name {
 	case "ScanRegions":
-		// one region covering the whole key space
-		return tuple{[]value(nil), iface{}}
+		// the regions (split at the keys given by zzverif.SetTiKVRegions; none = one region covering
+		// everything) that overlap [start, end): the first region starts at "" and the last ends at ""
+		if len(in.tkSplits) == 0 {
+			return tuple{[]value(nil), iface{}}
+		}
+		start := in.sliceBytes(args[1].([]value))
+		end := in.sliceBytes(args[2].([]value))
+		rt := in.eng.namedType("github.com/tikv/pd/client", "Region")
+		mt := in.eng.namedType("github.com/pingcap/kvproto/pkg/metapb", "Region")
+		var out []value
+		n := len(in.tkSplits)
+		for i := 0; i <= n; i++ {
+			var lo, hi []*sym.Term
+			if i > 0 {
+				lo = in.tkSplits[i-1]
+			}
+			if i < n {
+				hi = in.tkSplits[i]
+			}
+			// overlaps iff lo < end (an empty end means unbounded) and (hi == "" or hi > start)
+			if len(end) > 0 && i > 0 && !in.r.branch(in.bytesLt(lo, end), "region-before-end") {
+				continue
+			}
+			if i < n && !in.r.branch(in.bytesLt(start, hi), "region-after-start") {
+				continue
+			}
+			meta := in.zero(mt).(structure)
+			meta[fieldIndex(mt, "StartKey")] = termsToSlice(append([]*sym.Term(nil), lo...))
+			meta[fieldIndex(mt, "EndKey")] = termsToSlice(append([]*sym.Term(nil), hi...))
+			var mv value = meta
+			reg := in.zero(rt).(structure)
+			reg[fieldIndex(rt, "Meta")] = &mv
+			var rv value = reg
+			out = append(out, &rv)
+		}
+		return tuple{out, iface{}}
 	}
 	panic(pathEnd{kind: "error", msg: "pd client method " + name})
 }
